@@ -221,7 +221,7 @@ func VH_C10_forged(msg int, rule int, cache int, times int) {
 	r := synchronizer.VNewReplica(4, rule, hotstuff.ID(2), vsymbolic())
 	srv := &Server{blockchain: r.W.Chain, eventLoop: r.El, logger: logging.VNop(), config: r.W.Cfg}
 	impl := &serviceImpl{srv}
-	q := hotstuff.QuorumSize(4)
+	q := hotstuff.VQuorumRef(4)
 	gen := hotstuff.GetGenesis()
 	cur := hotstuff.View(nondetU64("current-view"))
 	vassume(cur >= 1 && cur < 1<<40)
